@@ -1626,6 +1626,8 @@ def string_reps(ats: List[tuple], extra_lits: List[str] = ()) -> List[Tuple[str,
                 out.append(("nomatch", s))
                 break
         else:
+            if n == 0:
+                continue        # the only string of length 0 is "" itself, a literal of this table
             raise Unrecognised("cannot build a non-matching string of length %d" % n)
     # prefix / first-byte atoms (case sensitive): they split the fold classes by the case pattern of the leading characters
     # and the non-matching strings by their prefix
